@@ -312,7 +312,7 @@ def work(job):
 def random_case(seed, i):
   """A float pre-period pair and a parameter point of the documented domain (deterministic in seed, i)."""
   rng = random.Random(seed * 1000003 + i)
-  n = rng.choice([3, 4, 5, 6, 8, 12, 20, 35, 60])
+  n = rng.choice([3, 4, 5, 6, 8, 12, 20, 35, 60, 91, 130, 200, 364])
   nt = rng.choice([1, 2, 3, 7, 14, 28])
   unit = 10.0 ** rng.randint(-2, 4)
   rho = rng.uniform(-0.95, 0.98)
